@@ -2,8 +2,8 @@ package c03
 
 import (
 	"math/rand"
-	"os"
 	"net/netip"
+	"os"
 	"testing"
 	"time"
 
@@ -31,11 +31,11 @@ type move struct {
 
 // record layout for NtpExchangeTrace.tla
 type rec struct {
-	Ev   string `json:"ev"` // "reset" | "accept" | "recv" | "end"
-	Ex   int    `json:"ex"` // client attempt (1-based) that consumed the datagram
+	Ev   string `json:"ev"`   // "reset" | "accept" | "recv" | "end"
+	Ex   int    `json:"ex"`   // client attempt (1-based) that consumed the datagram
 	Want string `json:"want"` // outcome predicted by the schedule ("" if none)
 	Got  string `json:"got"`  // ok | skip | error | ignored | timeout
-	Il   bool   `json:"il"`
+	Il   bool   `json:"il"`   // the accepted response answers in interleaved mode (wire: its origin is the request's receive field)
 	// identification of the four timestamps the reported offset was computed from
 	T0ex int    `json:"t0ex"` // attempt whose request's kernel tx time is t0 (0 = unknown)
 	T1h  int    `json:"t1h"`  // server handling whose receive time is t1
@@ -47,9 +47,20 @@ type rec struct {
 	Win3 bool   `json:"win3"` // t3 lies in the delivery window of the datagram accepted in attempt T3ex
 	Reco bool   `json:"reco"` // reported offset = ClockOffset(t0,t1,t2,t3) within 3 ns
 	Err  int    `json:"err"`  // reported offset - true offset of handling T1h (ns, clamped)
-	Rtd  int    `json:"rtd"`  // reported round-trip delay (ns, clamped)
+	Rtd  int    `json:"rtd"`  // round-trip delay (t3-t0)-(t2-t1) of the four identified timestamps (ns, clamped)
 	Beh  int    `json:"beh"`
 	Tr   string `json:"tr"` // transport of the behaviour ("ip" | "scion"), on reset records
+	// how the record was obtained (no log record is needed for any field above)
+	Flt bool   `json:"flt"` // the client had the harness's pass-through filter
+	Src string `json:"src"` // accept: the four timestamps are "filter" (handed to the filter) | "wire" (identified from wire fields and the return value)
+	Fin bool   `json:"fin"` // the measurement call returned with this datagram (the offset is the call's return value)
+	Pil bool   `json:"pil"` // hook: the client's interleaved state says the accepted response was interleaved
+	// optional cross-check against log records with the names known today ("" / true when none was seen)
+	Lg  string `json:"lg"`  // reaction class according to the log
+	Lgx bool   `json:"lgx"` // the logged interleaved flag, offset and round-trip delay are those of this record
+	// diagnostics: time from handing the datagram over to the evidence of the reaction (us), wait before, polls
+	Dur, Stl, Pol int
+	Why           string `json:"why"` // ignored: nocall | closed | unread
 }
 
 const clampNs = 2_000_000_000
@@ -65,16 +76,16 @@ func clamp(d time.Duration) int {
 }
 
 type attempt struct {
-	ex      int
-	arr     Arrival
-	req     ntp.Packet
-	acc     bool
-	accCTx  ntp.Time64 // prev.cTxTime / cRxTime recorded after acceptance
-	accCRx  ntp.Time64
-	delAt   time.Time // kernel tx time of the delivery of the accepted datagram
-	rec     bool      // accCTx/accCRx recorded (when the client's next request arrived)
-	prevEv  time.Time // harness kernel time of the last event of the client before this request arrived
-	nextArr time.Time // arrival of the client's next request (zero: none yet)
+	ex     int
+	arr    Arrival
+	req    ntp.Packet
+	prevEv time.Time // harness-side kernel time of the last event that precedes the sending of this request
+}
+
+// one datagram handed to the client's socket
+type delivery struct {
+	ex        int       // attempt whose socket it went to (0: none)
+	del, seen time.Time // it entered the client's socket between these two instants
 }
 
 type inflight struct {
@@ -90,6 +101,18 @@ const slack = 200 * time.Microsecond
 // real 3.1 s waits left for "idle" moves in this run
 var idleBudget = 2
 
+func useFilter(bi int) bool {
+	switch os.Getenv("VERIF_FILTER") {
+	case "0":
+		return false
+	case "1":
+		return true
+	}
+	// three quarters of the behaviours: the client hands every accepted exchange
+	// to the harness's pass-through filter; the rest: no filter (the default)
+	return bi%8 < 6
+}
+
 func TestC03(t *testing.T) {
 	scheds := vio.ReadCases[[]move](t)
 	out := vio.Create(t)
@@ -104,13 +127,13 @@ func TestC03(t *testing.T) {
 		if os.Getenv("VERIF_TRANSPORT") == "scion" || (os.Getenv("VERIF_TRANSPORT") == "" && bi%2 == 1) {
 			kind = "scion"
 		}
-		n, err := NewNetFor(kind)
+		n, err := NewNetWith(kind, useFilter(bi))
 		if err != nil {
 			t.Fatal(err)
 		}
-		out.Emit(rec{Ev: "reset", Beh: bi, Tr: kind})
+		out.Emit(rec{Ev: "reset", Beh: bi, Tr: kind, Flt: n.Filter != nil, Lgx: true})
 		naccept += runSchedule(t, n, sc, bi, rng, out)
-		out.Emit(rec{Ev: "end", Beh: bi})
+		out.Emit(rec{Ev: "end", Beh: bi, Lgx: true})
 		// let a running call finish before closing the sockets
 		n.Wait(n.Timeout + 200*time.Millisecond)
 		n.Close()
@@ -138,9 +161,9 @@ func TestC03Reuse(t *testing.T) {
 			}
 			n.Timeout = 120 * time.Millisecond
 			b := 2*bi + ki
-			out.Emit(rec{Ev: "reset", Beh: b, Tr: kind})
+			out.Emit(rec{Ev: "reset", Beh: b, Tr: kind, Flt: n.Filter != nil, Lgx: true})
 			runSchedule(t, n, sc, b, rng, out)
-			out.Emit(rec{Ev: "end", Beh: b})
+			out.Emit(rec{Ev: "end", Beh: b, Lgx: true})
 			n.Wait(n.Timeout + 200*time.Millisecond)
 			n.Close()
 		}
@@ -149,75 +172,63 @@ func TestC03Reuse(t *testing.T) {
 
 func pause(rng *rand.Rand) { time.Sleep(time.Duration(300+rng.Intn(1500)) * time.Microsecond) }
 
+func later(a, b time.Time) time.Time {
+	if b.After(a) {
+		return b
+	}
+	return a
+}
+
 func runSchedule(t *testing.T, n *Net, sc []move, bi int, rng *rand.Rand, out *vio.Out) int {
-	atts := map[int]*attempt{}   // by exchange number as counted here (arrival order)
-	reqs := map[[2]int]*inflight{} // (ex, copy) -> request in flight
+	atts := map[int]*attempt{}      // by exchange number as counted here (arrival order)
+	var dels []delivery             // every datagram handed to the client
+	reqs := map[[2]int]*inflight{}  // (ex, copy) -> request in flight
 	resps := map[[2]int]*inflight{} // (h, copy) -> response in flight
 	nex := 0
-	lastEv := time.Now() // harness time of the last datagram handed to the client (or the start)
+	lastEv := time.Now() // harness time of the last event that precedes whatever the client sends next
 	var cur *attempt
 	naccept := 0
+	flt := n.Filter != nil
 	n.SetTheta(0)
 
-	drainLogs := func() {
-		for {
-			select {
-			case <-n.Logs:
-			default:
-				return
-			}
-		}
-	}
 	// waitArrival: next request datagram of the client (starting a call if needed)
 	waitArrival := func() *attempt {
-		n.Poll()
-		if !n.Calling() {
-			select {
-			case a := <-n.Arrivals: // leftover of an earlier call: ignore
-				_ = a
-			default:
+		var a Arrival
+		for try := 0; ; try++ {
+			n.Poll()
+			if !n.Calling() {
+				n.DropArrivals() // leftovers of an earlier call
+				n.StartMeasure()
 			}
-			n.StartMeasure()
+			var ok, done bool
+			a, ok, done = n.WaitArrival(2 * time.Second)
+			if ok {
+				break
+			}
+			if !done || try >= 2 {
+				return nil
+			}
+			// the running call returned without another request: the next one is a new call's
 		}
-		select {
-		case a := <-n.Arrivals:
-			nex++
-			at := &attempt{ex: nex, arr: a, prevEv: lastEv}
-			if p := atts[nex-1]; p != nil {
-				p.nextArr = a.At
-			}
-			// the client built this request after finishing its previous attempts:
-			// its interleaved-mode state now describes the last accepted exchange
-			var last *attempt
-			for _, x := range atts {
-				if x.acc && (last == nil || x.ex > last.ex) {
-					last = x
-				}
-			}
-			if last != nil && !last.rec {
-				pv := n.T.Prev()
-				last.accCTx, last.accCRx, last.rec = pv.CTxTime, pv.CRxTime, true
-			}
-			pl, _, err := n.T.Unwrap(a.B)
-			if err != nil {
-				t.Fatalf("client sent an unparsable datagram: %v", err)
-			}
-			if err := ntp.DecodePacket(&at.req, pl); err != nil {
-				t.Fatalf("client sent an undecodable request: %v", err)
-			}
-			atts[nex] = at
-			reqs[[2]int{nex, 0}] = &inflight{b: a.B, dst: a.Src}
-			return at
-		case <-time.After(2 * time.Second):
-			return nil
+		nex++
+		at := &attempt{ex: nex, arr: a, prevEv: lastEv}
+		lastEv = later(lastEv, a.At)
+		pl, _, err := n.T.Unwrap(a.B)
+		if err != nil {
+			t.Fatalf("client sent an unparsable datagram: %v", err)
 		}
+		if err := ntp.DecodePacket(&at.req, pl); err != nil {
+			t.Fatalf("client sent an undecodable request: %v", err)
+		}
+		atts[nex] = at
+		reqs[[2]int{nex, 0}] = &inflight{b: a.B, dst: a.Src}
+		return at
 	}
 
 	for _, mv := range sc {
 		pause(rng)
 		switch mv.A {
 		case "send":
-			drainLogs()
 			cur = waitArrival()
 			if cur == nil {
 				return naccept // client does not send any more (e.g. call still timing out)
@@ -228,7 +239,7 @@ func runSchedule(t *testing.T, n *Net, sc []move, bi int, rng *rand.Rand, out *v
 			// only a few times per run because it costs real time; a skipped idle is
 			// always sound (the schedule's prediction then differs: strict only).
 			n.Poll()
-			if n.Calling() || len(n.Arrivals) > 0 || idleBudget <= 0 {
+			if n.Calling() || n.HasArrival() || idleBudget <= 0 {
 				continue
 			}
 			idleBudget--
@@ -278,10 +289,8 @@ func runSchedule(t *testing.T, n *Net, sc []move, bi int, rng *rand.Rand, out *v
 			if !n.Wait(n.Timeout + 2*time.Second) {
 				t.Fatalf("client call did not return after its deadline")
 			}
-			for len(n.Arrivals) > 0 {
-				<-n.Arrivals
-			}
-			out.Emit(rec{Ev: "recv", Ex: exOf(cur), Want: "timeout", Got: "timeout", Beh: bi})
+			n.DropArrivals()
+			out.Emit(rec{Ev: "recv", Ex: exOf(cur), Want: "timeout", Got: "timeout", Beh: bi, Flt: flt, Fin: true, Lgx: true})
 			cur = nil
 		case "crecv":
 			r := resps[[2]int{mv.M.H, mv.M.Copy}]
@@ -289,22 +298,25 @@ func runSchedule(t *testing.T, n *Net, sc []move, bi int, rng *rand.Rand, out *v
 				continue
 			}
 			delete(resps, [2]int{mv.M.H, mv.M.Copy})
-			drainLogs()
-			delAt, err := n.Deliver(r.b, r.dst)
+			re, err := n.Watch(r.dst, func() (time.Time, error) { return n.Deliver(r.b, r.dst) })
 			if err != nil {
-				t.Fatalf("deliver failed: %v", err)
+				t.Fatalf("delivery to the client: %v", err)
 			}
-			lastEv = delAt
-			got, lr := awaitReaction(n)
-			seen := time.Now()
-			rc := rec{Ev: "recv", Ex: exOf(cur), Want: mv.Res, Got: got, Beh: bi}
-			if got == "ok" && cur != nil && r.dst == cur.arr.Src {
+			lastEv = later(lastEv, re.Del)
+			mine := cur != nil && r.dst == cur.arr.Src
+			d := delivery{del: re.Del, seen: re.Seen}
+			if mine {
+				d.ex = cur.ex
+			}
+			dels = append(dels, d)
+			rc := rec{Ev: "recv", Ex: exOf(cur), Want: mv.Res, Got: re.Got, Beh: bi, Flt: flt, Fin: re.Final, Lg: re.Log, Lgx: true,
+				Dur: int(re.Seen.Sub(re.Del) / time.Microsecond), Stl: int(re.Settle / time.Microsecond), Pol: re.Polls, Why: re.Why}
+			if re.Got == "ok" && mine && fillAccept(&rc, n, cur, atts, dels, r, re) {
 				rc.Ev = "accept"
-				fillAccept(&rc, n, cur, atts, lr, delAt, seen)
 				naccept++
 			}
 			out.Emit(rc)
-			if got == "ok" || got == "error" || got == "panic" {
+			if re.Got == "ok" || re.Got == "error" || re.Got == "panic" {
 				cur = nil
 			}
 		}
@@ -324,48 +336,6 @@ type reaction struct {
 	eval     LogRec
 }
 
-// awaitReaction waits for the client's log records that tell what it did with
-// the datagram just delivered.
-func awaitReaction(n *Net) (string, reaction) {
-	var r reaction
-	deadline := time.After(120 * time.Millisecond)
-	for {
-		select {
-		case lr := <-n.Logs:
-			switch lr.Msg {
-			case "received response":
-				r.received = lr
-			case "evaluated response":
-				r.eval = lr
-				return "ok", r
-			case "received packet with unexpected type or structure", "received packet from unexpected source",
-				"failed to decode packet payload", "failed to decode NTS packet", "failed to process NTS packet",
-				"received packet to unexpected destination", "failed to handle packet", "failed to decode packet",
-				"failed to authenticate packet":
-				// some of these are logged before the retry decision: an error
-				// return follows at once if the retry was already used
-				select {
-				case lr2 := <-n.Logs:
-					if lr2.Msg == "failed to measure clock offset" {
-						return "error", r
-					}
-					if lr2.Msg == "client panic" {
-						return "panic", r
-					}
-				case <-time.After(3 * time.Millisecond):
-				}
-				return "skip", r
-			case "failed to measure clock offset":
-				return "error", r
-			case "client panic":
-				return "panic", r
-			}
-		case <-deadline:
-			return "ignored", r
-		}
-	}
-}
-
 func findH(n *Net, pred func(h *Handling) bool) *Handling {
 	var best *Handling
 	for _, h := range n.Handlings {
@@ -376,80 +346,97 @@ func findH(n *Net, pred func(h *Handling) bool) *Handling {
 	return best
 }
 
-func between(x, lo, hi time.Time) bool {
-	return !x.Before(lo.Add(-slack)) && !x.After(hi.Add(slack))
-}
+func between(x, lo, hi time.Time) bool { return !x.Before(lo) && !x.After(hi) }
 
 // fillAccept identifies, for a measurement the client reported, the exchange
-// each of the four combined timestamps belongs to. All windows are CAUSAL
-// (bounded by harness-side kernel timestamps of events that necessarily precede
-// or follow the client's own timestamp), so machine load widens them but cannot
-// make a correct client fall outside.
-func fillAccept(rc *rec, n *Net, cur *attempt, atts map[int]*attempt, r reaction, delAt, seen time.Time) {
-	cur.acc, cur.delAt = true, delAt
-	off := r.eval.Attrs["clock offset"].Duration()
-	rtd := r.eval.Attrs["round trip delay"].Duration()
-	rc.Il = r.eval.Attrs["interleaved"].Bool()
-	data := r.received.Attrs["data"]
-	rRx, rTx := groupT64(data, "ReceiveTime"), groupT64(data, "TransmitTime")
-	ref := time.Now()
-	var t1, t2 ntp.Time64
-	var tt0, tt3 time.Time
-	if rc.Il {
-		// all four timestamps are on the wire: three in the request, one in the response
-		t0, t3 := cur.req.TransmitTime, cur.req.ReceiveTime
-		t1, t2 = cur.req.OriginTime, rTx
-		tt0, tt3 = ntp.TimeFromTime64(t0, ref), ntp.TimeFromTime64(t3, ref)
-		// client side: which attempt do t0 and t3 belong to. t0 of attempt a was
-		// taken between the client's previous event and the arrival of a's request
-		// at the harness; t3 between the delivery of the accepted response and the
-		// arrival of the client's next request.
-		for _, a := range atts {
-			if !a.acc || !a.rec || a == cur {
-				continue
-			}
-			if a.accCTx == t0 {
-				rc.T0ex = a.ex
-				rc.Win0 = between(tt0.Add(time.Nanosecond), a.prevEv, a.arr.At)
-			}
-			if a.accCRx == t3 && !a.nextArr.IsZero() {
-				rc.T3ex = a.ex
-				rc.Win3 = between(tt3.Add(time.Nanosecond), a.delAt, a.nextArr)
-			}
-		}
-	} else {
-		t1, t2 = rRx, rTx
+// each of the four combined timestamps belongs to, and the offset it reported.
+// Nothing is taken from the client's log:
+//   - with the pass-through filter the client itself hands over t0..t3 of every
+//     accepted exchange; the reported offset is the call's return value when the
+//     call returned with this exchange, else what the attempt got from the filter
+//     (the repository's ntp.ClockOffset of the four);
+//   - without filter only a measurement the call returns can be judged: t1, t2 (and
+//     for an interleaved response t0, t3) are wire fields of the accepted response
+//     and of the client's request, t3 of a basic exchange is the returned timestamp
+//     and t0 the one the returned offset implies.
+//
+// The exchange of t0 / t3 is found through CAUSAL windows: t0 of attempt a was
+// taken between the last harness-side event before a's request and the arrival of
+// that request at the harness; t3 between the harness handing a datagram to the
+// kernel and seeing evidence of the client's reaction. Machine load widens the
+// windows but cannot make a correct client fall outside.
+func fillAccept(rc *rec, n *Net, cur *attempt, atts map[int]*attempt, dels []delivery, r *inflight, re Reaction) bool {
+	var resp ntp.Packet
+	pl, _, err := n.T.Unwrap(r.b)
+	if err != nil || ntp.DecodePacket(&resp, pl) != nil {
+		return false // (the harness delivers well-formed responses only)
 	}
-	// server side
-	if h := findH(n, func(h *Handling) bool { return h.Rxt64 == t1 }); h != nil {
-		rc.T1h, rc.T1ex = h.H, h.Ex
-		// all server timestamps carry that handling's theta
-		st1 := ntp.TimeFromTime64(t1, ref.Add(h.Theta))
-		st2 := ntp.TimeFromTime64(t2, ref.Add(h.Theta))
-		if rc.Il {
-			d := off - ntp.ClockOffset(tt0, st1, st2, tt3)
-			rc.Reco = d >= -3 && d <= 3
-		} else {
-			// t1, t2 are the accepted datagram's own fields; the client's t0/t3 are
-			// not on the wire. t0 lies in [P, A] (previous event of the client ..
-			// arrival of this request), t3 in [D, J] (delivery of the response .. the
-			// harness saw the client's log record). The reported offset and delay
-			// must be those of SOME such t0, t3.
-			P, A, D, J := cur.prevEv, cur.arr.At, delAt, seen
-			offLo, offHi := ntp.ClockOffset(A, st1, st2, J), ntp.ClockOffset(P, st1, st2, D)
-			rtdLo, rtdHi := ntp.RoundTripDelay(A, st1, st2, D), ntp.RoundTripDelay(P, st1, st2, J)
-			rc.Reco = off >= offLo-slack && off <= offHi+slack
-			in := rtd >= rtdLo-slack && rtd <= rtdHi+slack
-			rc.T0ex, rc.T3ex, rc.Win0, rc.Win3 = cur.ex, cur.ex, in, in
+	ref := time.Now()
+	t64 := func(x ntp.Time64) time.Time { return ntp.TimeFromTime64(x, ref) }
+	rc.Il = cur.req.ReceiveTime != (ntp.Time64{}) && resp.OriginTime == cur.req.ReceiveTime
+	rc.Pil = re.Prev.Interleaved
+	var T0, T1, T2, T3 time.Time
+	var off time.Duration
+	switch {
+	case len(re.Calls) > 0:
+		c := re.Calls[len(re.Calls)-1]
+		T0, T1, T2, T3, off = c.T0, c.T1, c.T2, c.T3, c.Off
+		rc.Src = "filter"
+		if re.Final && n.Last.Err == nil {
+			off = n.Last.Off
 		}
-		rc.Err = clamp(off - h.Theta)
+	case re.Final && re.ByRet:
+		rc.Src = "wire"
+		off = n.Last.Off
+		if rc.Il {
+			T0, T1, T2, T3 = t64(cur.req.TransmitTime), t64(cur.req.OriginTime), t64(resp.TransmitTime), t64(cur.req.ReceiveTime)
+		} else {
+			T1, T2, T3 = t64(resp.ReceiveTime), t64(resp.TransmitTime), n.Last.Ts
+			// off = ((t1 - t0) + (t2 - t3)) / 2  =>  t0 = t1 + (t2 - t3) - 2 off  (1 ns rounding)
+			T0 = T1.Add(T2.Sub(T3) - 2*off)
+		}
+	default:
+		// accepted, but the attempt's offset went nowhere the harness can see
+		// (no filter, and the call went on with another attempt)
+		return false
+	}
+	// client side: the attempt whose send window holds t0, whose delivery window holds t3
+	for _, sl := range []time.Duration{0, slack} {
+		for _, a := range atts {
+			if rc.T0ex == 0 && between(T0, a.prevEv.Add(-sl), a.arr.At.Add(sl)) {
+				rc.T0ex, rc.Win0 = a.ex, true
+			}
+		}
+		for _, d := range dels {
+			if rc.T3ex == 0 && d.ex != 0 && between(T3, d.del.Add(-sl), d.seen.Add(sl)) {
+				rc.T3ex, rc.Win3 = d.ex, true
+			}
+		}
+	}
+	// server side: the handling whose receive / transmit time t1 / t2 is
+	if h := findH(n, func(h *Handling) bool { return t64(h.Rxt64).Equal(T1) }); h != nil {
+		rc.T1h, rc.T1ex = h.H, h.Ex
+		rc.Err = clamp(off - h.Theta) // all server timestamps of a handling carry its theta
 	} else {
 		rc.Err = clampNs
 	}
-	if h := findH(n, func(h *Handling) bool { return h.Sent && h.Ktx64 == t2 }); h != nil {
+	if h := findH(n, func(h *Handling) bool { return h.Sent && t64(h.Ktx64).Equal(T2) }); h != nil {
 		rc.T2h, rc.T2r = h.H, "sTx"
-	} else if h := findH(n, func(h *Handling) bool { return h.Txt064 == t2 }); h != nil {
+	} else if h := findH(n, func(h *Handling) bool { return t64(h.Txt064).Equal(T2) }); h != nil {
 		rc.T2h, rc.T2r = h.H, "sTx0"
 	}
-	rc.Rtd = clamp(rtd)
+	d := off - (T1.Sub(T0)+T2.Sub(T3))/2
+	rc.Reco = d >= -3 && d <= 3
+	rc.Rtd = clamp(T3.Sub(T0) - T2.Sub(T1))
+	// optional: the log record with today's name says the same
+	if ev := re.LogRecs.eval; ev.Msg != "" {
+		lo, ok1 := ev.Attrs["clock offset"]
+		lr, ok2 := ev.Attrs["round trip delay"]
+		li, ok3 := ev.Attrs["interleaved"]
+		if ok1 && ok2 && ok3 {
+			dr := clamp(lr.Duration()) - rc.Rtd
+			rc.Lgx = lo.Duration() == off && dr >= -3 && dr <= 3 && li.Bool() == rc.Il
+		}
+	}
+	return true
 }
